@@ -128,6 +128,9 @@ c19_spec_call(int kind, const struct aws_stream * skey, const uint8_t * bkey, co
 #define SV4_SHA256(msg, out)		c19_spec_call(AWS_K_SHA256, NULL, NULL, (msg), (out))
 #define SV4_HMAC_S(key, msg, out)	c19_spec_call(AWS_K_HMAC, (key), NULL, (msg), (out))
 #define SV4_HMAC_B(key, msg, out)	c19_spec_call(AWS_K_HMAC, NULL, (key), (msg), (out))
+#if !defined(SV4_INMAX) && defined(C19_SMAX)
+#define SV4_INMAX (C19_SMAX + 1)	/* the domain check scans a whole input string */
+#endif
 #include "sigv4_spec.h"
 
 #define C19_SPEC_BEGIN(k0) do { c19_sp_k = (k0); c19_sp_ok_kind = c19_sp_ok_key = c19_sp_ok_msg = c19_sp_ok_count = 1; sv4_domain_ok = 1; } while (0)
